@@ -5,7 +5,7 @@ from props import common, mix, tim
 THM = "NextestModel.Thm.C11"
 THM_EXTRA = ["NextestModel.Thm.C11Term"]
 GEN = ["tables"]
-GEN_GROUPS = ["signals", "sighandler", "termexit"]
+GEN_GROUPS = ["signals", "sighandler", "termexit", "respond"]
 TRUSTED = ["model: Model/Unit (reaction of each phase to a Shutdown request) and Model/Dispatcher (broadcast to the registered units); signal tables regenerated from unix.rs on every run (shutdown_terminate_method, timeout_terminate_method, job_control_child, every libc::kill addressing -pid)",
            "signal.rs's tokio signal streams, delivery to the process group and that nothing survives SIGKILL are the runtime's and the kernel's: observed end-to-end (receivers' logs, pid liveness after exit, exit status, wall-clock exit)"]
 ASSUMPTIONS = ["PARTIAL: `nextest exits as soon as every unit has exited` is observed (exit within 1 s of the last death), not proved: the dispatcher's run loop termination is not modelled"]
